@@ -13,17 +13,22 @@ from engine.loader import AnalysisError
 from engine.switch import enumerate_paths, inline
 
 META = {
-    'text': 'Static rule checking of the necessary structure of the layout engine: exhaustive dispatch of the '
-            'three stack machines over the closed set of document kinds, reverse-document-order pushes, '
-            'unmodified text emission with exact column/indent arithmetic, mode propagation, annotation '
-            'push/pop pairing, NIL-only normalisation, str accepted by every constructor, renderer writes '
-            'text unchanged except rstrip of the last fragment. Each clause is a necessary condition of the '
-            'property on every path of the code; the membership of a concrete output in the set of layouts '
-            '(a run-time quantity) is NOT decided.',
-    'note': 'trusts the ast parser and that document kinds are exactly the Doc subclasses in doctypes.py plus '
-            'str; decides structure, not behaviour; C04.h (hard break inside a flat group) is a listed known finding',
-    'technique': 'static analysis: branch-fact extraction from type switches (path enumeration per branch, '
-                 'temporaries inlined), canonical linear forms, guard facts',
+    'text': 'Decided on what the code computes, by abstract interpretation of the package source on small concrete document'
+            's built through the interpreted combinators: (n) layout_smart and layout_fast - best_layout, both fitting pred'
+            'icates, normalisation, the contextual evaluators of align - emit, at nine page widths and three ribbon fractio'
+            'ns, a text that is the rendering of the document under some assignment of flat / broken to its groups and fill'
+            ' separators (forced breaks break every enclosing group, align indents relative to the column), with annotation'
+            ' markers around exactly the fragments they wrap; (f,g) the combinators build what they say, reject non-documen'
+            'ts, and normalize_doc preserves the denotation (texts over all choices plus the indentation each flat group is'
+            ' measured from) on 300 documents incl. negative nest amounts, empty texts, NIL, nested always_break, flat_choi'
+            'ce, annotate, fill; (i) the plain renderer writes exactly the fragments and line breaks it is given, trimming '
+            'only trailing blanks of the last fragment per line; (m) document objects are never written after construction '
+            '(lazy FlatChoice excepted); (a,c,e) exhaustive dispatch, emission facts and annotation pairing of the three st'
+            'ack machines; (j) align. Hard line breaks inside a group laid out flat are the recorded finding C04.h.',
+    'note': 'trusts the ast parser and that document kinds are exactly the Doc subclasses in doctypes.py plus str; decides '
+            'structure, not behaviour; C04.h (hard break inside a flat group) is a listed known finding',
+    'technique': 'static analysis: abstract interpretation of constructors, normalisation, layout and renderer on small-scope do'
+                 'cuments against a denotational reference; stack-machine branch facts; who-may-write on document objects',
 }
 
 
